@@ -612,7 +612,7 @@ def setup():
     print("specification cross-checks: ok")
     ok, msg = run_translator()
     print("translator:", "ok" if ok else "FAILED\n" + msg)
-    ok1, out = lake_build(["X86Model", "driver"])
+    ok1, out = lake_build(["X86Model", "driver", "driver_nosrc"])
     print("lake build:", "ok" if ok1 else "FAILED\n" + out[-4000:])
     rc = 0 if (ok and ok1) else 1
     profiles = ["debug", "release"] + sorted({p for c in PROPS.values() for p in c.get("profiles", [])} - {"debug", "release"})
